@@ -132,10 +132,10 @@ current tables (`rescSpec` = what a freshly built object answers).  The statemen
 the scalar type: they also hold for the `Float` instance the driver runs. -/
 
 /-- rescaled class: in every history in which no call raised, each answer (log-likelihood,
-posterior matrix, first derivative) is the answer of a fresh object with the current parameter
-values and break points.  (`d1 ""` is excluded: the empty name is the cache's "nothing cached" marker.) -/
+posterior matrix, first and second derivative) is the answer of a fresh object with the current parameter
+values and break points.  (`d1 ""`, `d2 ""` are excluded: the empty name is the cache's "nothing cached" marker.) -/
 theorem history_independent {α : Type} [Scalar α] (t : Tables α) (o : RescObj α) (hb : RescObj.build t = some o)
-    (ops : List (Op α)) (hne : ∀ a ∈ o.run ops, a ≠ Ans.exc) (hvar : ∀ op ∈ ops, op ≠ Op.d1 "") :
+    (ops : List (Op α)) (hne : ∀ a ∈ o.run ops, a ≠ Ans.exc) (hvar : ∀ op ∈ ops, op ≠ Op.d1 "" ∧ op ≠ Op.d2 "") :
     o.run ops = rescSpecRun t [] ops := by
   obtain ⟨hc, ht, hbp⟩ := RescObj.build_consistent t o hb
   rw [RescObj.run_spec o hc ops hne hvar, ht, hbp]
@@ -149,18 +149,18 @@ theorem history_independent_logsum {α : Type} [Scalar α] (t : Tables α) (ops 
 /-- low-memory class -/
 theorem history_independent_lowmem {α : Type} [Scalar α] (t : Tables α) (maxSize : Nat) (o : LowObj α)
     (hb : LowObj.build t maxSize = some o)
-    (ops : List (Op α)) (hne : ∀ a ∈ o.run ops, a ≠ Ans.exc) (hvar : ∀ op ∈ ops, op ≠ Op.d1 "") :
+    (ops : List (Op α)) (hne : ∀ a ∈ o.run ops, a ≠ Ans.exc) (hvar : ∀ op ∈ ops, op ≠ Op.d1 "" ∧ op ≠ Op.d2 "") :
     o.run ops = lowSpecRun t maxSize [] ops := by
   unfold LowObj.build at hb
   split at hb
   · cases hb
   · have := Option.some.inj hb; subst this
-    exact LowObj.run_spec _ rfl rfl ops hne hvar
+    exact LowObj.run_spec _ rfl rfl rfl ops hne hvar
 
 /-- the hypothesis "no call raised" cannot be dropped: after an update that raised (negative
 transition probability) the rescaled object keeps answering the old log-likelihood -/
 theorem history_dependent_after_exception :
-    let t0 : Tables Rat := { p := { n := 1, P := fun _ _ => 1, pi := fun _ => 1 }, e0 := fun _ => 1 / 2, es := [], dE := fun _ => (fun _ => 0, []) }
+    let t0 : Tables Rat := { p := { n := 1, P := fun _ _ => 1, pi := fun _ => 1 }, e0 := fun _ => 1 / 2, es := [], dE := fun _ => (fun _ => 0, []), d2E := fun _ => (fun _ => 0, []) }
     let t1 : Tables Rat := { t0 with p := { n := 1, P := fun _ _ => -1, pi := fun _ => 1 } }
     ∃ o, RescObj.build t0 = some o ∧ (o.step (.setTables t1)).2 = Ans.exc
       ∧ ((o.step (.setTables t1)).1.step .logLik).2 = (o.step .logLik).2
@@ -170,7 +170,7 @@ theorem history_dependent_after_exception :
   have h1 : transOk t1.p = false := by decide
   have hb0 : rescCompute t0 [] = some (rescForward t0.p t0.e0 (mkSites t0.es [])) := by simp [rescCompute, h0]
   have hb1 : ∀ bps, rescCompute t1 bps = none := by intro bps; simp [rescCompute, h1]
-  refine ⟨(RescObj.mk t0 [] (rescForward t0.p t0.e0 (mkSites t0.es [])) [] false "" emptyD),
+  refine ⟨(RescObj.mk t0 [] (rescForward t0.p t0.e0 (mkSites t0.es [])) [] false "" emptyD "" Scalar.zero),
     by simp only [RescObj.build, hb0, Option.map_some], ?_, ?_, ?_⟩
   · simp only [RescObj.step, hb1]
   · simp only [RescObj.step, hb1]
